@@ -24,7 +24,7 @@ var evC12 = ev.New("C12", "document model (1-6 columns, 0-12 rows, or 1000-2500 
 	"oracle: the frame (or the error) denoted by the document model; non-trivial = a quoted field holding a quote, delimiter or LF read in fragments of <=7 bytes, or a field of >=1024 bytes; "+
 	"distinct = FNV-64 of (document bytes, configuration, schedule)")
 
-var csvDelims = []byte{',', ',', ',', ';', '\t', '|', ' ', 'x'}
+var csvDelims = []byte{',', ',', ',', ';', '\t', '|', ' ', 'x', ',', ';', 0xFE, 0x80, 0xFF, 0x01, 0xEF}
 
 var intCells = []string{"0", "1", "-1", "7", "+5", "007", "42", "-0", "123456789012", "9223372036854775807", "-9223372036854775808"}
 
@@ -32,7 +32,7 @@ var intCells = []string{"0", "1", "-1", "7", "+5", "007", "42", "-0", "123456789
 var bigIntCells = []string{"9223372036854775808", "9999999999999999999", "-9223372036854775809", "18446744073709551616", "+9223372036854775808"}
 var floatCells = []string{"1.5", "-0.25", "1e5", "NaN", "inf", "", ".5", "5.", "-Inf", "0x1p-2", "1e-320", "99999999999999999999", "3"}
 var boolCells = []string{"true", "false", "t", "F", "TRUE", "True", "T", "f"}
-var strPieces = []string{"a", "b", "ab", " ", "  ", "\"", "\"\"", ",", ";", "\t", "|", "x", "\n", "\n\n", "ä", "€", "\xff", "0", "1", "-", "e", ".", "true", "'", "\\", "%", "q\"q", "a,b", "line1\nline2"}
+var strPieces = []string{"a", "b", "ab", " ", "  ", "\"", "\"\"", ",", ";", "\t", "|", "x", "\n", "\n\n", "ä", "€", "\xff", "\xfe", "\ufffd", "\x80", "0", "1", "-", "e", ".", "true", "'", "\\", "%", "q\"q", "a,b", "line1\nline2"}
 
 func genCell(t *rapid.T, profile int) string {
 	switch profile {
@@ -121,6 +121,21 @@ func genCSVCase(t *rapid.T) csvCase {
 		if ncols >= 2 {
 			names[ncols-1] = names[0]
 			c.conf.RenameDuplicates = rapid.IntRange(0, 3).Draw(t, "rename") > 0
+			// further duplicates, and genuine columns that carry the very names a renaming scheme would pick
+			if ncols >= 3 {
+				switch rapid.IntRange(0, 5).Draw(t, "dupkind") {
+				case 0:
+					names[1] = names[0] // three of a kind
+				case 1:
+					names[1] = names[0] + "0" // genuine column before the duplicate
+				case 2:
+					names[ncols-1], names[ncols-2] = names[0]+"0", names[0] // ... and after it
+				case 3:
+					if ncols >= 4 {
+						names[1], names[2] = names[0]+"0", names[0]+"1"
+					}
+				}
+			}
 		}
 	case "missing":
 		if ncols >= 2 {
